@@ -7,7 +7,7 @@
 (***************************************************************************)
 EXTENDS Util
 Props == {"C17"}
-MInit == [target |-> "", call |-> EmptyFn, pend |-> {}, runner |-> EmptyFn, stopRunner |-> "", awdone |-> EmptyFn,
+MInit == [target |-> "", call |-> EmptyFn, pend |-> {}, runner |-> EmptyFn, stopRunner |-> "", awdone |-> EmptyFn, anyStall |-> FALSE,
           bad |-> [p \in Props |-> Ok]]
 MStep(m, e, idx) ==
   CASE e.e = "Config" -> [m EXCEPT !.target = e.target]
@@ -19,6 +19,7 @@ MStep(m, e, idx) ==
             want == IF c.to = "T" THEN "T" ELSE c.thr IN
         [m EXCEPT !.bad = IF e.loop # want THEN Flag(@, "C17", "C17_OnTarget", idx) ELSE @]
     [] e.e = "AwDone" -> [m EXCEPT !.awdone = Put(@, e.c, e.t)]
+    [] e.e = "Stall" -> [m EXCEPT !.anyStall = TRUE]      \* (the harness descheduled a thread: timing is not judged)
     [] e.e = "CallEnd" ->
         LET c == m.call[e.c]
             closed == m.target = "closed" /\ c.to = "T"
@@ -31,7 +32,7 @@ MStep(m, e, idx) ==
             \* (or by the permanent runner), which hands the result back at once - no virtual time passes in between.
             \* (A task / future that completed while another caller was running the loop is only collected once the
             \*  caller's own run gets the loop's lock: not judged.)
-            b2 == IF c.kind = "coro" /\ e.c \in DOMAIN m.awdone /\ e.t > m.awdone[e.c] THEN Flag(b, "C17", "C17_CompletesLate", idx) ELSE b
+            b2 == IF ~m.anyStall /\ c.kind = "coro" /\ e.c \in DOMAIN m.awdone /\ e.t > m.awdone[e.c] THEN Flag(b, "C17", "C17_CompletesLate", idx) ELSE b
         IN [m EXCEPT !.pend = @ \ {e.c}, !.bad = b2]
     [] e.e = "RunnerEnter" ->
         [m EXCEPT !.runner = Put(@, e.loop, e.thr),
